@@ -58,6 +58,7 @@ def krylov_basis(matvec, v, k, tol=1e-11):
     scale = np.linalg.norm(w)
     if scale == 0:
         return V
+    w, scale = w / scale, 1.0  # the Krylov space does not depend on the magnitude of v
     for _ in range(k):
         for _ in range(2):
             w = w - V @ (V.conj().T @ w)
